@@ -109,13 +109,13 @@ pub fn run(args: &[&str]) -> String {
       let f = if pl.is_empty() { None } else { roundtrip_oracle(&dv, &si, &sig, &pl, "flattened") };
       with(format!("m:{}:{}:{}:{}:{}", ho(mp.as_deref()), ho(mprot.as_deref()), hex(&msig), hex(&si), d), f)
     }
-    Some("general") if args.len() >= 6 && (args.len() - 3) % 3 == 0 => {
+    Some("general") if args.len() >= 7 && (args.len() - 4) % 3 == 0 => {
       let Some(pl) = unhex(args[1]) else { return "bad-request".into() };
       let detached = args[2] == "1";
-      let n = (args.len() - 3) / 3;
+      let n = (args.len() - 4) / 3;
       let mut hs = vec![];
       for i in 0..n {
-        let (Some((_, p)), Some((_, u)), Some(sig)) = (hdr(args[3 + 3 * i]), hdr(args[4 + 3 * i]), unhex(args[5 + 3 * i])) else { return "bad-request".into() };
+        let (Some((_, p)), Some((_, u)), Some(sig)) = (hdr(args[4 + 3 * i]), hdr(args[5 + 3 * i]), unhex(args[6 + 3 * i])) else { return "bad-request".into() };
         hs.push((p, u, sig));
       }
       let mut sis: Vec<Vec<u8>> = vec![];
@@ -171,8 +171,148 @@ pub fn run(args: &[&str]) -> String {
       }
       "bad-request".into()
     }
+    Some("doc") if args.len() == 2 => {
+      let Ok(n) = args[1].parse::<u64>() else { return "bad-request".into() };
+      match std::panic::catch_unwind(move || doc_stream(n)) {
+        Ok(None) => "impl-only".into(),
+        Ok(Some(f)) => format!("impl-only\t#FAIL:{}", f),
+        Err(_) => "impl-only\t#FAIL:panic:storage-backed signing or verification panicked".into(),
+      }
+    }
     _ => "bad-request".into(),
   }
+}
+
+/// storage-backed signing through a DID document with every combination of signature options;
+/// implementation-side oracle only (the document model arrives with C04)
+fn doc_stream(n: u64) -> Option<String> {
+  use identity_core::common::{Object, Url};
+  use identity_did::{CoreDID, DID};
+  use identity_document::document::CoreDocument;
+  use identity_document::verifiable::JwsVerificationOptions;
+  use identity_eddsa_verifier::EdDSAJwsVerifier;
+  use identity_jose::jws::JwsAlgorithm;
+  use identity_storage::{JwkDocumentExt, JwkMemStore, JwsSignatureOptions, KeyIdMemstore, Storage};
+  use identity_verification::{MethodRelationship, MethodScope};
+  let rt = tokio::runtime::Builder::new_current_thread().build().unwrap();
+  let mut r = Rng::new(n ^ 0xD0C);
+  let storage = Storage::new(JwkMemStore::new(), KeyIdMemstore::new());
+  let mk = |id: &str| CoreDocument::builder(Object::new()).id(CoreDID::parse(id).unwrap()).build().unwrap();
+  let mut doc = mk("did:example:holder");
+  let mut other = mk("did:example:other");
+  let scopes = [
+    ("a", MethodScope::VerificationMethod),
+    ("b", MethodScope::VerificationRelationship(MethodRelationship::Authentication)),
+    ("c", MethodScope::VerificationRelationship(MethodRelationship::AssertionMethod)),
+  ];
+  for (f, sc) in scopes {
+    rt.block_on(doc.generate_method(&storage, JwkMemStore::ED25519_KEY_TYPE, JwsAlgorithm::EdDSA, Some(f), sc)).ok()?;
+  }
+  rt.block_on(other.generate_method(&storage, JwkMemStore::ED25519_KEY_TYPE, JwsAlgorithm::EdDSA, Some("a"), MethodScope::VerificationMethod)).ok()?;
+  let verifier = EdDSAJwsVerifier::default();
+  // option bits from n
+  let mut opts = JwsSignatureOptions::new();
+  let bits = r.next();
+  let bit = |i: u32| bits >> i & 1 == 1;
+  if bit(0) { opts = opts.attach_jwk_to_header(true); }
+  let b64 = if bit(1) { if bit(2) { opts = opts.b64(false); Some(false) } else { opts = opts.b64(true); Some(true) } } else { None };
+  if bit(3) { opts = opts.typ("vc+jwt"); }
+  if bit(4) { opts = opts.cty("json"); }
+  if bit(5) { opts = opts.url(Url::parse("https://example.com/x").unwrap()); }
+  let nonce = if bit(6) { opts = opts.nonce("n-1"); Some("n-1") } else { None };
+  let custom_kid = bit(7);
+  if custom_kid { opts = opts.kid("my-kid"); }
+  let detached = bit(8);
+  if detached { opts = opts.detached_payload(true); }
+  if bit(9) {
+    let mut o = Object::new();
+    o.insert("x-custom".into(), serde_json::json!({"a": [1, "two"]}));
+    opts = opts.custom_header_parameters(o);
+  }
+  let (frag, scope) = scopes[(bits >> 10) as usize % 3];
+  // payload classes
+  let payload: Vec<u8> = match (bits >> 12) % 5 {
+    0 => b"payload".to_vec(),
+    1 => b"{\"a\":\"b\"}".to_vec(),
+    2 => b"with.dot".to_vec(),
+    3 => r.bytes(1 + (bits >> 20) as usize % 40),
+    _ => "é€ text ~".as_bytes().to_vec(),
+  };
+  let unencoded = b64 == Some(false);
+  let jws = match rt.block_on(doc.create_jws(&storage, frag, &payload, &opts)) {
+    Ok(j) => j,
+    Err(_) => {
+      // the only legitimate refusals: an unencoded attached payload outside the compact charset
+      let charset_ok = std::str::from_utf8(&payload).map(|s| !s.contains('.') && s.chars().all(|c| matches!(c, '\x20'..='\x2D' | '\x2F'..='\x7E'))).unwrap_or(false);
+      if unencoded && !detached && !charset_ok {
+        return None;
+      }
+      return Some(format!("create-jws-refused:opts {:?} payload {}", opts, hex(&payload)));
+    }
+  };
+  let det_bytes: Option<Vec<u8>> = if detached { Some(if unencoded { payload.clone() } else { b64url(&payload).into_bytes() }) } else { None };
+  let method_id = doc.id().to_url().join(format!("#{}", frag)).unwrap();
+  let base = || {
+    let mut v = JwsVerificationOptions::new();
+    if let Some(nc) = nonce {
+      v = v.nonce(nc);
+    }
+    if custom_kid {
+      v = v.method_id(method_id.clone());
+    }
+    v
+  };
+  let check = |d: &CoreDocument, v: &JwsVerificationOptions| d.verify_jws(jws.as_str(), det_bytes.as_deref(), &verifier, v);
+  // 1. verifies against the document and key it was produced for, to what was signed
+  match check(&doc, &base()) {
+    Ok(dec) => {
+      if dec.claims.as_ref() != payload.as_slice() {
+        return Some("doc-verify-claims-differ:".into());
+      }
+      let want_kid: String = if custom_kid { "my-kid".to_string() } else { method_id.to_string() };
+      if dec.protected.nonce() != nonce || dec.protected.kid() != Some(want_kid.as_str()) {
+        return Some("doc-verify-header-differs:".into());
+      }
+    }
+    Err(e) => return Some(format!("own-token-does-not-verify:{:?} opts {:?}", e, opts)),
+  }
+  // 2. the method's own scope accepts, a scope that excludes it rejects
+  if check(&doc, &base().method_scope(scope)).is_err() {
+    return Some("own-scope-rejected:".into());
+  }
+  for ex in [MethodScope::VerificationRelationship(MethodRelationship::KeyAgreement), MethodScope::VerificationRelationship(MethodRelationship::CapabilityInvocation), scopes[((bits >> 10) as usize + 1) % 3].1] {
+    if ex != scope && check(&doc, &base().method_scope(ex)).is_ok() {
+      return Some(format!("excluding-scope-accepted:{:?} for a method in {:?}", ex, scope));
+    }
+  }
+  // 3. a different nonce (or a nonce on only one side) rejects
+  let wrong = match nonce {
+    Some(_) => vec![JwsVerificationOptions::new().nonce("n-2"), JwsVerificationOptions::new()],
+    None => vec![JwsVerificationOptions::new().nonce("n-1")],
+  };
+  for mut w in wrong {
+    if custom_kid {
+      w = w.method_id(method_id.clone());
+    }
+    if check(&doc, &w).is_ok() {
+      return Some("wrong-nonce-accepted:".into());
+    }
+  }
+  // 4. another method's key rejects
+  let other_frag = scopes[((bits >> 10) as usize + 1) % 3].0;
+  let other_id = doc.id().to_url().join(format!("#{}", other_frag)).unwrap();
+  let mut v = JwsVerificationOptions::new().method_id(other_id);
+  if let Some(nc) = nonce {
+    v = v.nonce(nc);
+  }
+  if check(&doc, &v).is_ok() {
+    return Some("other-method-key-accepted:".into());
+  }
+  // 5. another document rejects (same fragment, different DID and key)
+  if check(&other, &base()).is_ok() {
+    return Some("other-document-accepted:".into());
+  }
+  None
 }
 
 fn stab(specs: &[&str]) -> String {
@@ -247,18 +387,22 @@ pub fn gen(thorough: bool, seed: u64, out: &mut impl Write) {
       // the general encoder's into_jws rejects non-UTF-8 only when not detached and b64=false
     }
     for a in recs {
-      writeln!(out, "C08 general {} 0 {} {} {} {}", hex(pl), a.0, a.1, hex(b"s0"), stab(&[a.0, a.1])).unwrap();
+      let u8f = if std::str::from_utf8(pl).is_ok() { "1" } else { "0" };
+      writeln!(out, "C08 general {} 0 {} {} {} {} {}", hex(pl), u8f, a.0, a.1, hex(b"s0"), stab(&[a.0, a.1])).unwrap();
       for b in recs {
         for det in ["0", "1"] {
-          writeln!(out, "C08 general {} {} {} {} {} {} {} {} {}", hex(pl), det, a.0, a.1, hex(b"s0"), b.0, b.1, hex(b"s1"), stab(&[a.0, a.1, b.0, b.1])).unwrap();
+          writeln!(out, "C08 general {} {} {} {} {} {} {} {} {} {}", hex(pl), det, u8f, a.0, a.1, hex(b"s0"), b.0, b.1, hex(b"s1"), stab(&[a.0, a.1, b.0, b.1])).unwrap();
         }
         if thorough {
           for c in recs.iter().take(4) {
-            writeln!(out, "C08 general {} 0 {} {} {} {} {} {} {} {} {} {}", hex(pl), a.0, a.1, hex(b"s0"), b.0, b.1, hex(b"s1"), c.0, c.1, hex(b"s2"), stab(&[a.0, a.1, b.0, b.1, c.0, c.1])).unwrap();
+            writeln!(out, "C08 general {} 0 {} {} {} {} {} {} {} {} {} {} {}", hex(pl), u8f, a.0, a.1, hex(b"s0"), b.0, b.1, hex(b"s1"), c.0, c.1, hex(b"s2"), stab(&[a.0, a.1, b.0, b.1, c.0, c.1])).unwrap();
           }
         }
       }
     }
   }
   let _ = b64_strict;
+  for k in 0..(if thorough { 4000 } else { 300 }) {
+    writeln!(out, "C08 doc {}", seed * 100_000 + k).unwrap();
+  }
 }
